@@ -42,6 +42,37 @@ type c11Case struct {
 	P      string `json:"p,omitempty"` // registered path (square) / group prefix (group)
 	L      int    `json:"max_len"`
 	Enc    bool   `json:"use_encoded_path,omitempty"`
+	Uni    bool   `json:"unicode_white_space_alphabet,omitempty"` // square over {'/','a',' ',U+00A0,U+3000,U+0085,U+2003}, <= 3 characters
+	Redisp bool   `json:"redispatched_with_handlecontext,omitempty"`
+}
+
+var c11UniAlphabet = []rune{'/', 'a', ' ', '\u00a0', '\u3000', '\u0085', '\u2003'}
+
+func c11GetUni() *c11Set {
+	if s, ok := c11Sets[-3]; ok {
+		return s
+	}
+	out := []string{""}
+	prev := []string{""}
+	for l := 1; l <= 3; l++ {
+		var cur []string
+		for _, p := range prev {
+			for _, c := range c11UniAlphabet {
+				cur = append(cur, p+string(c))
+			}
+		}
+		out = append(out, cur...)
+		prev = cur
+	}
+	s := &c11Set{strs: out}
+	for m := 0; m < 2; m++ {
+		s.norm[m] = make([]string, len(out))
+		for i, x := range out {
+			s.norm[m][i] = refmodel.Norm(x, m == 1)
+		}
+	}
+	c11Sets[-3] = s
+	return s
 }
 
 type c11Set struct {
@@ -70,6 +101,7 @@ func init() {
 	for _, l := range []int{2, 3, 5, 6} {
 		c11Get(l)
 	}
+	c11GetUni()
 	Registry["C11"] = func(args []string) int { return fw.Main(c11Spec, args) }
 }
 
@@ -91,6 +123,11 @@ func c11Gen(tier string, emit func(c11Case)) {
 	for _, enc := range []bool{false, true} {
 		for _, strict := range []bool{false, true} {
 			emit(c11Case{Kind: "encoded", Strict: strict, Enc: enc, L: 4})
+		}
+	}
+	for _, strict := range []bool{false, true} {
+		for _, p := range c11GetUni().strs {
+			emit(c11Case{Kind: "square", Strict: strict, P: p, L: 3, Uni: true})
 		}
 	}
 	for _, strict := range []bool{false, true} {
@@ -135,6 +172,9 @@ func c11Run(c c11Case, st *fw.Stats) []fw.Viol {
 	switch c.Kind {
 	case "square":
 		set := c11Get(c.L)
+		if c.Uni {
+			set = c11GetUni()
+		}
 		var r *rux.Router
 		var rt *rux.Route
 		if pv := try(func() {
@@ -366,6 +406,8 @@ func c11Run(c c11Case, st *fw.Stats) []fw.Viol {
 		var seen string
 		var ran int
 		r.GET("/{all}", func(ctx *rux.Context) { seen = ctx.Param("all"); ran++ })
+		front := rux.New()
+		front.NotFound(func(ctx *rux.Context) { r.HandleContext(ctx) })
 		var rec func(cur string, n int)
 		rec = func(cur string, n int) {
 			if n > 0 {
@@ -394,6 +436,16 @@ func c11Run(c c11Case, st *fw.Stats) []fw.Viol {
 						} else if ran != 1 || seen != want {
 							add(fmt.Sprintf("encoded:path:enc=%v", c.Enc), fmt.Sprintf("strict=%v UseEncodedPath=%v: request URL raw path %q (decoded %q), RequestURI %q: route /{all} matched %q (handler runs %d), expected %q", c.Strict, c.Enc, raw, dec, ruri, seen, ran, want))
 						}
+						if ruri == "" {
+							// the same request arriving through a front router that passes its context on with HandleContext
+							seen, ran = "<none>", 0
+							req2 := &http.Request{Method: "GET", URL: u, Header: http.Header{}}
+							if pv := try(func() { front.ServeHTTP(httptest.NewRecorder(), req2) }); pv != nil {
+								add("encoded:panic", fmt.Sprintf("strict=%v encoded=%v: raw path %q re-dispatched with HandleContext panicked: %v", c.Strict, c.Enc, raw, pv))
+							} else if ran != 1 || seen != want {
+								add(fmt.Sprintf("encoded:redispatch:enc=%v", c.Enc), fmt.Sprintf("strict=%v UseEncodedPath=%v: request URL raw path %q (decoded %q) handed on with HandleContext: route /{all} matched %q (handler runs %d), expected %q as for a direct request", c.Strict, c.Enc, raw, dec, seen, ran, want))
+							}
+						}
 					}
 				}
 			}
@@ -412,8 +464,8 @@ func c11Run(c c11Case, st *fw.Stats) []fw.Viol {
 var c11Spec = fw.Spec[c11Case]{
 	ID:    "C11",
 	Level: "model_checking",
-	Rule: "complete enumeration: ALL strings of length <=L over {'/',' ','.','a','b',TAB} as registered path P and as request path Q - the full P x Q square in both StrictLastSlash modes (one evaluation = one GET and one HEAD lookup of Q on a router holding GET P; reach <=> Norm(Q)==Norm(P)); " +
-		"all G x P x Q over strings of length <=3 for group prefixes and all nested G1 x G2 x P over strings of length <=2; all raw paths of <=4 tokens over {/,a,b,%2F,%2f,%20,space,|,%7C}, each with four RequestURI values (absent, equal, stale prefix, *) under both UseEncodedPath settings; static, multi-segment and dynamic routes of every length 1..300 bytes under three methods with nine request variations each; InterceptAll(p) with the route registered as p for all strings p of length <=3, in every option order, against all requests of length <=2; non-trivial = a (P,Q) pair that must reach the route / an escaped path that differs from the decoded one",
+	Rule: "complete enumeration: ALL strings of length <=L over {'/',' ','.','a','b',TAB} as registered path P and as request path Q - the full P x Q square in both StrictLastSlash modes (and again for all strings of <=3 characters over {'/','a',space,U+00A0,U+3000,U+0085,U+2003}) (one evaluation = one GET and one HEAD lookup of Q on a router holding GET P; reach <=> Norm(Q)==Norm(P)); " +
+		"all G x P x Q over strings of length <=3 for group prefixes and all nested G1 x G2 x P over strings of length <=2; all raw paths of <=4 tokens over {/,a,b,%2F,%2f,%20,space,|,%7C}, each with four RequestURI values (absent, equal, stale prefix, *) under both UseEncodedPath settings (directly and handed on by a front router with HandleContext); static, multi-segment and dynamic routes of every length 1..300 bytes under three methods with nine request variations each; InterceptAll(p) with the route registered as p for all strings p of length <=3, in every option order, against all requests of length <=2; non-trivial = a (P,Q) pair that must reach the route / an escaped path that differs from the decoded one",
 	Assume: []string{"alphabet of 6 characters; L=5 quick, 6 thorough", "net/url's EscapedPath is taken as the definition of 'the escaped path'"},
 	Bounds: func(tier string) map[string]any {
 		L := 5
